@@ -293,15 +293,13 @@ example : HistOk [] [.connect exB1 true false, .flush .required false false,
 
 /-! ### pins of regenerated constants -/
 
-theorem pin_flags : Generated.C03.tfCoinBase = 1 ∧ Generated.C03.tfSpent = 2 ∧
-    Generated.C03.tfModified = 4 ∧ Generated.C03.tfFresh = 8 := by decide
-
 theorem pin_script_limits : Generated.C03.maxScriptSize = (maxScriptSize : Int) ∧
     Generated.C03.opReturn = (opReturn.toNat : Int) ∧ Generated.C03.opData75 = (opData75 : Int) ∧
     Generated.C03.opPushData1 = (opPushData1 : Int) ∧ Generated.C03.opPushData2 = (opPushData2 : Int) ∧
     Generated.C03.opPushData4 = (opPushData4 : Int) := by decide
 
-theorem pin_flush_modes : Generated.C03.flushRequired = 0 ∧ Generated.C03.flushPeriodic = 1 ∧
-    Generated.C03.flushIfNeeded = 2 := by decide
+/- No pin for the in-memory flag bits (`tfModified`, `tfFresh`, `tfSpent`, `tfCoinBase`: never persisted or
+sent - the serialised entry encodes the coinbase bit in its own header code) nor for the `FlushMode`
+enum values: they are internal, a renumbering is harmless. -/
 
 end BV.C03
